@@ -50,6 +50,39 @@ def make_engine(key, slot):
     return e
 
 
+class AdvanceCheck:
+    """file proxy: after every read / write the position must have advanced by exactly the number of bytes returned / reported"""
+
+    def __init__(self, inner, report):
+        self.__dict__['inner'] = inner
+        self.__dict__['report'] = report
+        self.__dict__['check_reads'] = None
+
+    def __getattr__(self, name):
+        return getattr(self.inner, name)
+
+    def __setattr__(self, name, value):
+        self.__dict__[name] = value
+
+    def read(self, *a):
+        before = self.inner.tell()
+        got = self.inner.read(*a)
+        after = self.inner.tell()
+        if after - before != len(got):
+            self.report(f'read{a} at {before} returned {len(got)} bytes but the position moved by {after - before}', len(got), after - before)
+        if self.check_reads is not None and not self.check_reads(before, bytes(got)):
+            self.report(f'read{a} at {before} did not return the decryption of the bytes the file holds there', 'decryption', bytes(got).hex()[:40])
+        return got
+
+    def write(self, data):
+        before = self.inner.tell()
+        n = self.inner.write(data)
+        after = self.inner.tell()
+        if after - before != n:
+            self.report(f'write of {len(data)} bytes at {before} reported {n} but the position moved by {after - before}', n, after - before)
+        return n
+
+
 def open_view(case):
     """returns (view, base BytesIO, window offset, window size)"""
     from pyctr.fileio import SubsectionIO
@@ -82,6 +115,10 @@ def gen_case(rng, writes, kinds=('plain', 'window')):
     off = rng.choice([0, 1, 16, 23]) if kind == 'window' else 0
     extra = rng.choice([0, 3, 16]) if kind == 'window' else 0
     base = pyenv.rbytes(rng, off + sz + extra)
+    short = kind == 'window' and sz > 0 and rng.random() < 0.12
+    if short:
+        # a window declared larger than what the base file holds (a trimmed image): reads come back short at the real end
+        base = base[:off + rng.randrange(0, sz)]
     nops = rng.randrange(1, 13)
     ops = []
     pos = 0          # estimate of the position, to hit coincidences on purpose (a seek that does not move, a relative seek BY the position)
